@@ -14,7 +14,6 @@ import (
 	"path/filepath"
 	"strings"
 	"sync"
-	"sync/atomic"
 	"testing"
 	"time"
 
@@ -244,15 +243,31 @@ func FuzzConsensus(f *testing.F) {
 		}
 		// disconnect; the peer's three routines must end
 		e.sw.StopPeerGracefully(p)
-		deadline := time.Now().Add(leakSettle)
-		for atomic.LoadInt32(e.dead[p.id]) < 3 {
-			if time.Now().After(deadline) {
-				t.Fatalf("per-peer routines still alive %v after the peer was removed (%d of 3 ended)\n%s", leakSettle, atomic.LoadInt32(e.dead[p.id]), allStacks())
-			}
-			time.Sleep(200 * time.Microsecond)
-		}
-		delete(e.dead, p.id)
+		e.awaitPeerRoutines(p)
 	})
+}
+
+// closeFuzzEnvs stops the per-process nodes of the fuzz targets (called from TestMain).
+func closeFuzzEnvs() {
+	if fuzzConsEnv != nil {
+		fuzzConsEnv.close()
+	}
+	var all []*fuzzTarget
+	for _, t := range fuzzMempool {
+		all = append(all, t)
+	}
+	for _, t := range fuzzBlockchain {
+		all = append(all, t)
+	}
+	for _, t := range fuzzPex {
+		all = append(all, t)
+	}
+	all = append(all, fuzzEvidence, fuzzStatesync)
+	for _, t := range all {
+		if t.env != nil {
+			t.env.close()
+		}
+	}
 }
 
 // ---- the single-channel reactors ---------------------------------------------------------------------------------
